@@ -1,11 +1,12 @@
 #!/bin/sh
+R=${SA_REPO:-/repo}; export SA_REPO=$R   # the tree the patches are applied to (a scratch worktree while helper agents read /repo)
 # run every stored behaviour-preserving refactoring (benign/<prop>-<k>/patch.diff, written by independent sub-agents)
 # against the quick check of its property (and the properties sharing its files); every line must say "silent"
 cd /verif
-for d in benign/*/; do
+for d in benign/${1:-}*/; do
   id=$(basename $d); prop=${id%%-*}
-  if ! git -C /repo apply --check /verif/$d/patch.diff 2>/dev/null; then echo "$id patch does not apply"; continue; fi
-  git -C /repo apply /verif/$d/patch.diff
+  if ! git -C $R apply --check /verif/$d/patch.diff 2>/dev/null; then echo "$id patch does not apply"; continue; fi
+  git -C $R apply /verif/$d/patch.diff
   files=$(grep '^+++ b/' /verif/$d/patch.diff | sed 's#+++ b/src/biotite/##')
   props="$prop"
   for f in $files; do
@@ -19,8 +20,8 @@ for d in benign/*/; do
     exp=0; [ "$q" = "$prop" ] && [ -f /verif/$d/expected_rc ] && exp=$(cat /verif/$d/expected_rc)
     if [ $rc -eq 0 ]; then res="$res $q:silent"; elif [ $rc -eq $exp ]; then res="$res $q:silent-not(rc=$rc: cannot decide this restructuring - expected, see DESIGN 8.8)"; else res="$res $q:ALARM(rc=$rc)"; fi
   done
-  git -C /repo checkout -- .
+  git -C $R checkout -- .
   echo "$id$res"
 done
 rm -f /tmp/benign_out.txt
-git -C /repo status --short | head -3
+git -C $R status --short | head -3
